@@ -7,6 +7,6 @@ CONSTANTS
   Sizes <- SizesSmall
   Labels = {"", "l"}
   Targets = {1, 2, 4}
-  TaxonSets <- TaxonSetsSmall
+  TaxonSeqs <- TaxonSeqsSmall
 INVARIANT TypeOK
 CHECK_DEADLOCK FALSE
